@@ -14,6 +14,18 @@ NOT_APPLICABLE = {
 PLANNED = ["C01", "C02", "C03", "C06", "C10", "C11", "C12", "C13", "C14", "C15", "C16", "C17", "C18"]
 TECH = "deterministic simulation with fault injection: "
 CLAIMED = {
+    "C01": {
+        "text": "Every compute_pl / compute_portfolio / compute_pnl in seeded histories (H = 1..3 hedging instruments incl. listed derivatives priced by Black-Scholes modules and a second primary, distinct cost rates, market-data faults F9 - jumps, crashes, zig-zag, flat, pinned - and re-simulation F10) and direct pl()/terminal_value() calls on simulator tapes are compared with a broker ledger evaluated in exact rational arithmetic; admissible error is a forward rounding bound of the working dtype. The oracle gathers prices, positions, cost rates and payoff itself (spot of each hedge, a separate compute_hedge, instrument.cost, derivative.payoff()), independently of how Hedger wires them.",
+        "design_ref": "DESIGN.md 6/C01",
+        "note": "Bound 4*(H*T+10)*eps*sum|terms|; non-finite inputs are skipped (counted); the direct pl() group is plain value generation and is labelled so in the evidence.",
+        "technique": TECH + "exact-rational ledger reference model stepped through simulated time, market-data faults",
+    },
+    "C13": {
+        "text": "After every derivative.simulate in seeded histories where two derivatives of different maturities (and a two-underlier user derivative) share and re-simulate one underlier: the number of time points of every buffer equals the exact-rational grid model (ceil(M/dt)+1, k+1 when M/dt is within 1e-9 of an integer k - maturities built as k*dt, k/denominator, repeated sums, (k+frac)*dt over 12 step sizes and all 8 primaries); time to maturity for every step, negative indices and None equals (T-1-i)*dt within 16 ulp, is strictly decreasing and exactly 0 at the end; payoff, features and hedge use the same grid.",
+        "design_ref": "DESIGN.md 6/C13",
+        "note": "Ratios whose exact distance to an integer lies between 1e-9 and 1e-6 (relative) are not judged.",
+        "technique": TECH + "exact-rational grid reference model as invariant after every simulate, aliasing re-simulation fault",
+    },
     "C02": {
         "text": "Seeded search over worlds (underlier x derivative x feature set x model x dtype) with fault F1 (future corruption): online - a causal market feed in which the simulator reveals column t+1 of every reachable buffer only after the model has answered step t, and offline - corrupt columns > t*, recompute, compare the prefix. Oracles: model inputs and hedges bitwise equal to the clean run for steps <= t, for both branches of compute_hedge and every feature separately; last two hedge columns bitwise equal. Sampling, not proof.",
         "design_ref": "DESIGN.md 6/C02",
